@@ -443,7 +443,7 @@ def build_configs(tier, seed):
             if heavy_tri:
                 kw['free'] = [3]
             elif heavy_quad:
-                kw['free'] = [2]
+                kw['free'] = 'none'       # (one free vertex: still no verdict within 25 min for Quad2 / QuadP3)
             elif heavy_tet:
                 kw['free'] = [4]
         name = '%s/%s/%s/%s' % (mesh, elem, form, kind)
